@@ -54,4 +54,873 @@ example : (jsonBody 200 ⟨true, none, false⟩).isOk = false ∧ (jsonBody 200 
     (jsonBody 500 (payloadOf (wfResult 2 (.obj [])))).isOk = false ∧ (jsonBody 200 (payloadOf (wfResult 2 (.obj [])))).isOk = true := by
   decide
 
+/-! ## 2. POST-SSE (one call's own stream) -/
+
+private theorem postStep_inert (req : Nat) (H : List Text) (st : PostSt) (l : Line)
+    (hl : postInert req l = true) (hd : st.done = none) :
+    (postStep req H st l).done = none ∧ (postStep req H st l).result = st.result := by
+  unfold postStep
+  simp only [hd, Option.isSome_none, Bool.false_eq_true, if_false]
+  unfold postInert at hl
+  cases hk : l.kind with
+  | data p =>
+    simp only [hk] at hl ⊢
+    unfold postData
+    have hnil : notifDecodes [] = true := by decide
+    cases hj : p.json with
+    | none => simp [hj] at hl
+    | some v =>
+      cases v <;> simp only [hj] at hl ⊢ <;> try (simp at hl)
+      · unfold postNotif
+        simp only [hnil, if_true]
+        split <;> simp [hd]
+      · rename_i m
+        simp only [hl.1, Bool.false_eq_true, if_false]
+        unfold postNotif
+        simp only [hl.2, if_true]
+        split <;> simp [hd]
+  | _ => exact ⟨hd, rfl⟩
+
+private theorem postRun_inert (req : Nat) (H : List Text) (g : List Line) :
+    ∀ st : PostSt, (∀ l ∈ g, postInert req l = true) → st.done = none →
+      (postRun req H st g).done = none ∧ (postRun req H st g).result = st.result := by
+  induction g with
+  | nil => intro st _ hd; exact ⟨hd, rfl⟩
+  | cons l g ih =>
+    intro st hg hd
+    have h1 := postStep_inert req H st l (hg l (by simp)) hd
+    have h2 := ih (postStep req H st l) (fun x hx => hg x (by simp [hx])) h1.1
+    simp only [postRun, List.foldl_cons] at h2 ⊢
+    exact ⟨h2.1, h2.2.trans h1.2⟩
+
+private theorem postRun_append (req : Nat) (H : List Text) (st : PostSt) (a b : List Line) :
+    postRun req H st (a ++ b) = postRun req H (postRun req H st a) b := by
+  simp [postRun, List.foldl_append]
+
+private theorem idMatches_self (req : Nat) (h : req < 1000000) : idMatches req (.int (req : Int)) = true := by
+  simp [idMatches, h]
+
+/-- resync, POST-SSE: whatever inert lines (comments, blank lines, unknown fields, other peoples' frames, notifications,
+    70 KiB or 1 MiB of them) precede the answer on the call's stream, the call returns that answer's result. -/
+theorem C07_resync_post (req : Nat) (hreq : req < 1000000) (H : List Text) (g : List Line)
+    (hg : ∀ l ∈ g, postInert req l = true) (r : Json) (n : Nat) :
+    postCall req H (g ++ [dataLine (wfResult req r) n]) .eof = .ok r := by
+  have hi := postRun_inert req H g {} hg rfl
+  unfold postCall
+  rw [postRun_append]
+  generalize postRun req H {} g = st at hi
+  have hm : idMatches req (.int (req : Int)) = true := idMatches_self req hreq
+  have step : postRun req H st [dataLine (wfResult req r) n] = postReceived H st (.ok r) := by
+    simp [postRun, postStep, hi.1, dataLine, payloadOf, postData, wfResult, postAddressed, lookup, hasKey, hm]
+  rw [step]
+  unfold postReceived postFinish
+  by_cases hH : H = []
+  · simp [hH]
+  · simp [hH, hi.1]
+
+/-- the call always returns: at the end of the stream, or (silent stream) at the caller's deadline — `postCall` is a total
+    function; and once it has returned, nothing that follows on the stream is read any more. -/
+theorem C07_total_post (req : Nat) (H : List Text) (st : PostSt) (ls : List Line) (o : CallOut) (h : st.done = some o) :
+    (postRun req H st ls).done = some o := by
+  induction ls generalizing st with
+  | nil => exact h
+  | cons l ls ih =>
+    simp only [postRun, List.foldl_cons]
+    have : postStep req H st l = st := by simp [postStep, h]
+    rw [this]
+    exact ih st h
+
+/-- a bad frame inside the call's own stream (a `data:` line that is not JSON) makes THAT call return an error — the allowed
+    outcome — it neither hangs nor panics. -/
+theorem C07_post_bad_data_is_call_error (req : Nat) (H : List Text) (g : List Line)
+    (hg : ∀ l ∈ g, postInert req l = true) (p : Payload) (hp : p.json = none) (ind : Bool) (n : Nat) (rest : List Line) (e : End) :
+    postCall req H (g ++ ⟨.data p, ind, n⟩ :: rest) e = .failed .parse := by
+  have hi := postRun_inert req H g {} hg rfl
+  unfold postCall
+  rw [postRun_append]
+  generalize postRun req H {} g = st at hi
+  have step : postStep req H st ⟨.data p, ind, n⟩ = { st with done := some (.failed .parse) } := by
+    simp [postStep, hi.1, postData, hp]
+  have := C07_total_post req H _ rest (.failed .parse) (show ({ st with done := some (.failed .parse) } : PostSt).done = _ from rfl)
+  simp only [postRun, List.foldl_cons] at this ⊢
+  rw [step]
+  cases e <;> simp [postFinish, this]
+
+/-- unknown ids, ids of the wrong type: a well-shaped JSON-RPC object whose id is not (`%v`-equal to) the request's changes
+    neither the outcome nor what was received so far. -/
+theorem C07_unknown_id_harmless_post (req : Nat) (H : List Text) (st : PostSt) (m : Obj) (hd : st.done = none)
+    (hid : postAddressed req m = false) (hn : notifDecodes m = true) (ind : Bool) (n : Nat) :
+    (postStep req H st ⟨.data ⟨true, some (.obj m), false⟩, ind, n⟩).done = none ∧
+    (postStep req H st ⟨.data ⟨true, some (.obj m), false⟩, ind, n⟩).result = st.result :=
+  postStep_inert req H st _ (by simp [postInert, hid, hn]) hd
+
+/-- ids of the wrong JSON type never match, except a string that spells the same digits (`%v` prints both alike) -/
+example : idMatches 2 .null = false ∧ idMatches 2 (.bool true) = false ∧ idMatches 2 (.arr [.int 2]) = false ∧
+    idMatches 2 (.dec 25 1) = false ∧ idMatches 2 (.str t!"abc") = false ∧ idMatches 2 (.str t!"2") = true ∧
+    idMatches 1000000 (.int 1000000) = false := by decide
+
+example : postCall 2 [t!"verif/n"]
+    [⟨.comment, false, 71680⟩, ⟨.data (payloadOf (wfNote t!"verif/n" [(t!"k", .int 1)])), false, 60⟩, ⟨.blank, false, 0⟩,
+     ⟨.data (payloadOf (wfResult 9 (.obj []))), false, 50⟩, dataLine (wfResult 2 (.obj [])) 50] .eof = .ok (.obj []) :=
+  C07_resync_post 2 (by decide) [t!"verif/n"]
+    [⟨.comment, false, 71680⟩, ⟨.data (payloadOf (wfNote t!"verif/n" [(t!"k", .int 1)])), false, 60⟩, ⟨.blank, false, 0⟩,
+     ⟨.data (payloadOf (wfResult 9 (.obj []))), false, 50⟩] (by decide) (.obj []) 50
+
+/-! ## 3. GET stream -/
+
+private theorem getDispatch_halt (H : List Text) (st : GetSt) (p : Payload) : (getDispatch H st p).halt = st.halt := by
+  unfold getDispatch
+  split
+  · rfl
+  · split
+    · split <;> rfl
+    · split <;> rfl
+    · rfl
+
+private theorem getStep_alive (F : Facts) (H : List Text) (st : GetSt) (l : Line) (hs : st.halt = none)
+    (hl : tooLong F.getLimit l.size = false) : (getStep F H st l).halt = none := by
+  unfold getStep
+  simp only [hs, Option.isSome_none, Bool.false_eq_true, if_false, hl]
+  split
+  · split
+    · rw [getDispatch_halt]
+    · exact hs
+  · rfl
+  · exact hs
+
+private theorem getStep_halted (F : Facts) (H : List Text) (st : GetSt) (l : Line) (h : Halt) (hs : st.halt = some h) :
+    getStep F H st l = st := by
+  simp [getStep, hs]
+
+private theorem getRun_append (F : Facts) (H : List Text) (st : GetSt) (a b : List Line) :
+    getRun F H st (a ++ b) = getRun F H (getRun F H st a) b := by
+  simp [getRun, List.foldl_append]
+
+/-- the GET-stream reader never panics and never spins, whatever the stream and whatever the facts: the only way it stops
+    is `dead` (the Scanner's error ends the loop). -/
+theorem C07_total_get (F : Facts) (H : List Text) (ls : List Line) (st : GetSt)
+    (hs : st.halt = none ∨ st.halt = some .dead) :
+    (getRun F H st ls).halt = none ∨ (getRun F H st ls).halt = some .dead := by
+  induction ls generalizing st with
+  | nil => exact hs
+  | cons l ls ih =>
+    simp only [getRun, List.foldl_cons]
+    apply ih
+    rcases hs with hs | hs
+    · unfold getStep
+      simp only [hs, Option.isSome_none, Bool.false_eq_true, if_false]
+      split
+      · right; rfl
+      · left
+        split
+        · split
+          · rw [getDispatch_halt]
+          · exact hs
+        · rfl
+        · exact hs
+    · right; rw [getStep_halted F H st l _ hs]; exact hs
+
+/-- partial (true of today's code): a stream all of whose lines are below the limit never stops the reader. -/
+theorem C07_alive_get_partial (F : Facts) (H : List Text) (ls : List Line) (st : GetSt) (hs : st.halt = none)
+    (hl : ∀ l ∈ ls, tooLong F.getLimit l.size = false) : (getRun F H st ls).halt = none := by
+  induction ls generalizing st with
+  | nil => exact hs
+  | cons l ls ih =>
+    simp only [getRun, List.foldl_cons]
+    exact ih _ (getStep_alive F H st l hs (hl l (by simp))) (fun x hx => hl x (by simp [hx]))
+
+/-- full statement, good region (a reader without a line limit): NO stream stops the reader. -/
+theorem C07_alive_get (F : Facts) (hF : F.getLimit = none) (H : List Text) (ls : List Line) (st : GetSt) (hs : st.halt = none) :
+    (getRun F H st ls).halt = none :=
+  C07_alive_get_partial F H ls st hs (fun _ _ => by simp [hF, tooLong])
+
+private theorem getEvent_delivers (F : Facts) (H : List Text) (st : GetSt) (hs : st.halt = none) (method : Text) (params : Obj)
+    (hm : method ∈ H) (n : Nat) (hn : tooLong F.getLimit n = false) :
+    (getRun F H st (getEvent (wfNote method params) n)).notes = st.notes ++ [(method, .obj params)] ∧
+    (getRun F H st (getEvent (wfNote method params) n)).halt = none := by
+  have h0 : tooLong F.getLimit 0 = false := by
+    cases hF : F.getLimit with
+    | none => rfl
+    | some lim =>
+      simp only [hF, tooLong, decide_eq_false_iff_not, Nat.not_le] at hn ⊢
+      omega
+  simp [getRun, getEvent, getStep, hs, dataLine, blankLine, payloadOf, hn, h0, getDispatch, wfNote, msgType, lookupStr?, lookup, hasKey,
+    notifDecodes, strOrNull, objOrNull, methodOf, paramsOf, extractString, hm]
+
+/-- resync, partial (true of today's code): complete garbage lines — each below the line limit — before a well-formed event
+    never prevent that event from being delivered to its handler. -/
+theorem C07_resync_get_partial (F : Facts) (H : List Text) (st : GetSt) (hs : st.halt = none) (g : List Line)
+    (hg : ∀ l ∈ g, tooLong F.getLimit l.size = false) (method : Text) (params : Obj) (hm : method ∈ H) (n : Nat)
+    (hn : tooLong F.getLimit n = false) :
+    (getRun F H st (g ++ getEvent (wfNote method params) n)).notes = (getRun F H st g).notes ++ [(method, .obj params)] ∧
+    (getRun F H st (g ++ getEvent (wfNote method params) n)).halt = none := by
+  rw [getRun_append]
+  exact getEvent_delivers F H _ (C07_alive_get_partial F H g st hs hg) method params hm n hn
+
+/-- resync, full statement, good region: ANY lines before a well-formed event, of any length. -/
+theorem C07_resync_get (F : Facts) (hF : F.getLimit = none) (H : List Text) (st : GetSt) (hs : st.halt = none) (g : List Line)
+    (method : Text) (params : Obj) (hm : method ∈ H) (n : Nat) :
+    (getRun F H st (g ++ getEvent (wfNote method params) n)).notes = (getRun F H st g).notes ++ [(method, .obj params)] :=
+  (C07_resync_get_partial F H st hs g (fun _ _ => by simp [hF, tooLong]) method params hm n (by simp [hF, tooLong])).1
+
+/-- counterexample for today's region (D17): one comment line of 65536 bytes, then a well-formed notification — the reader is
+    dead and the notification is never delivered. -/
+theorem C07_resync_get_counterexample (g : Bool) (e : OnErr) :
+    (getRun ⟨some 65536, g, e⟩ [t!"verif/n"] {} (⟨.comment, false, 65536⟩ :: getEvent (wfNote t!"verif/n" []) 60)).notes = [] ∧
+    (getRun ⟨some 65536, g, e⟩ [t!"verif/n"] {} (⟨.comment, false, 65536⟩ :: getEvent (wfNote t!"verif/n" []) 60)).halt = some .dead := by
+  simp [getRun, getStep, tooLong, getEvent]
+
+/-- the regenerated limit has not been lowered below `bufio.Scanner`'s default (or is gone) -/
+theorem C07_get_limit_fact :
+    (match Mcp.Gen.rdFacts.getLimit with | none => true | some lim => decide (65536 ≤ lim)) = true := by decide
+
+/-- hence, in the tree as it is: a stream whose lines are all shorter than 64 KiB never stops the GET reader, and a
+    well-formed event after it is delivered. -/
+theorem C07_resync_get_here (H : List Text) (g : List Line) (hg : ∀ l ∈ g, l.size < 65536) (method : Text) (params : Obj)
+    (hm : method ∈ H) (n : Nat) (hn : n < 65536) :
+    (getRun Mcp.Gen.rdFacts H {} (g ++ getEvent (wfNote method params) n)).notes =
+      (getRun Mcp.Gen.rdFacts H {} g).notes ++ [(method, .obj params)] := by
+  have hf := C07_get_limit_fact
+  have key : ∀ k, k < 65536 → tooLong Mcp.Gen.rdFacts.getLimit k = false := by
+    intro k hk
+    cases hl : Mcp.Gen.rdFacts.getLimit with
+    | none => rfl
+    | some lim =>
+      simp only [hl, decide_eq_true_eq] at hf
+      simp only [tooLong, decide_eq_false_iff_not, Nat.not_le]
+      omega
+  exact (C07_resync_get_partial _ H {} rfl g (fun l hl => key _ (hg l hl)) method params hm n (key n hn)).1
+
+example : (getRun ⟨some 65536, false, .spin⟩ [t!"verif/n"] {}
+    ([⟨.data ⟨true, none, false⟩, false, 11⟩, ⟨.blank, false, 0⟩, ⟨.spaces, false, 2⟩, ⟨.comment, false, 65535⟩] ++
+      getEvent (wfNote t!"verif/n" [(t!"k", .int 7)]) 60)).notes = [(t!"verif/n", .obj [(t!"k", .int 7)])] :=
+  (C07_resync_get_partial ⟨some 65536, false, .spin⟩ [t!"verif/n"] {} rfl _ (by decide) t!"verif/n" _ (by decide) 60 (by decide)).1
+
+/-! ## pending tables -/
+
+private theorem deliver_not_sel (t : Table) (sel : Nat → Bool) (o : CallOut) (c : Nat) (h : sel c = false) :
+    (t.deliver sel o).got c = t.got c := by
+  simp [Table.deliver, h]
+
+private theorem deliver_sel (t : Table) (sel : Nat → Bool) (o : CallOut) (c : Nat) (hp : c ∈ t.pending) (h : sel c = true)
+    (hg : t.got c = none) : (t.deliver sel o).got c = some o := by
+  simp [Table.deliver, h, hp, hg]
+
+private theorem deliver_congr (t1 t2 : Table) (sel : Nat → Bool) (o : CallOut) (c : Nat) (hp : t1.pending = t2.pending)
+    (hg : t1.got c = t2.got c) : (t1.deliver sel o).got c = (t2.deliver sel o).got c := by
+  simp [Table.deliver, hp, hg]
+
+/-! ## 4. legacy SSE -/
+
+private theorem legMessage_frame (st : LegSt) (p : Payload) :
+    (legMessage st p).halt = st.halt ∧ (legMessage st p).etype = st.etype ∧ (legMessage st p).data = st.data ∧
+      (legMessage st p).latch = st.latch ∧ (legMessage st p).tbl.pending = st.tbl.pending := by
+  unfold legMessage
+  split
+  · split
+    · split <;> exact ⟨rfl, rfl, rfl, rfl, rfl⟩
+    · split <;> exact ⟨rfl, rfl, rfl, rfl, rfl⟩
+  · exact ⟨rfl, rfl, rfl, rfl, rfl⟩
+
+private theorem legMessage_other (st : LegSt) (p : Payload) (c : Nat) (h : legAddressed c p = false) :
+    (legMessage st p).tbl.got c = st.tbl.got c := by
+  unfold legMessage
+  split
+  · rename_i m hm
+    split
+    · split <;> rfl
+    · split
+      · rename_i hid
+        apply deliver_not_sel
+        simpa [legAddressed, hm, hid] using h
+      · rfl
+  · rfl
+
+private theorem legEndpoint_frame (F : Facts) (st : LegSt) (p : Payload) :
+    (legEndpoint F st p).etype = st.etype ∧ (legEndpoint F st p).data = st.data ∧ (legEndpoint F st p).tbl = st.tbl := by
+  unfold legEndpoint
+  split
+  · split
+    · split <;> exact ⟨rfl, rfl, rfl⟩
+    · exact ⟨rfl, rfl, rfl⟩
+  · exact ⟨rfl, rfl, rfl⟩
+
+private theorem legEndpoint_guarded (F : Facts) (hF : F.latchGuarded = true) (st : LegSt) (p : Payload) :
+    (legEndpoint F st p).halt = st.halt := by
+  unfold legEndpoint
+  simp only [hF, if_true]
+  split
+  · split <;> rfl
+  · rfl
+
+/-- one step keeps a live reader alive, provided the latch is guarded or the step cannot dispatch an endpoint event -/
+private theorem legStep_alive (F : Facts) (st : LegSt) (l : Line) (hs : st.halt = none)
+    (h : F.latchGuarded = true ∨ st.etype ≠ t!"endpoint") : (legStep F st l).halt = none := by
+  unfold legStep
+  simp only [hs, Option.isSome_none, Bool.false_eq_true, if_false]
+  split
+  · split
+    · exact hs
+    · split
+      · unfold legDispatch
+        split
+        · rename_i he
+          rcases h with h | h
+          · rw [legEndpoint_guarded F h]
+          · exact absurd he h
+        · split
+          · rw [(legMessage_frame _ _).1]
+          · rfl
+      · exact hs
+  · rfl
+  · rfl
+  · exact hs
+
+private theorem legRun_append (F : Facts) (st : LegSt) (a b : List Line) :
+    legRun F st (a ++ b) = legRun F (legRun F st a) b := by
+  simp [legRun, List.foldl_append]
+
+/-- full statement, good region (the latch is closed under a guard): NO stream — repeated, missing, malformed endpoint events
+    included — makes the legacy SSE reader panic; it has no way to spin or stop either. -/
+theorem C07_total_legacy (F : Facts) (hF : F.latchGuarded = true) (ls : List Line) (st : LegSt) (hs : st.halt = none) :
+    (legRun F st ls).halt = none := by
+  induction ls generalizing st with
+  | nil => exact hs
+  | cons l ls ih =>
+    simp only [legRun, List.foldl_cons]
+    exact ih _ (legStep_alive F st l hs (Or.inl hF))
+
+/-- what a step does to the pending event type: only an `event:` line (not indented) names a type -/
+private theorem legStep_etype (F : Facts) (st : LegSt) (l : Line) (hn : l.namesEndpoint = false)
+    (he : st.etype ≠ t!"endpoint") : (legStep F st l).etype ≠ t!"endpoint" := by
+  unfold legStep
+  split
+  · exact he
+  · split
+    · split
+      · exact he
+      · split
+        · unfold legDispatch
+          split
+          · rw [(legEndpoint_frame F _ _).1]; simp
+          · split
+            · rw [(legMessage_frame _ _).2.1]; simp
+            · simp
+        · exact he
+    · rename_i name _ hk _
+      simp only [Line.namesEndpoint, hk, decide_eq_false_iff_not] at hn
+      exact hn
+    · exact he
+    · exact he
+
+/-- partial (true of today's code): once the handshake is through, a stream that never names the `endpoint` event type again
+    never crashes the reader — whatever else it contains. -/
+theorem C07_total_legacy_partial (F : Facts) (ls : List Line) (hls : ∀ l ∈ ls, l.namesEndpoint = false) (st : LegSt)
+    (hs : st.halt = none) (he : st.etype ≠ t!"endpoint") : (legRun F st ls).halt = none := by
+  induction ls generalizing st with
+  | nil => exact hs
+  | cons l ls ih =>
+    simp only [legRun, List.foldl_cons]
+    exact ih (fun x hx => hls x (by simp [hx])) _ (legStep_alive F st l hs (Or.inr he))
+      (legStep_etype F st l (hls l (by simp)) he)
+
+/-- counterexample for today's region (D15): two endpoint events — `close` of the closed `endpointChan` panics in the
+    reader goroutine, nothing recovers it, the process dies. -/
+theorem C07_total_legacy_counterexample (F : Facts) (hF : F.latchGuarded = false) (ids : List Nat) :
+    (legRun F { tbl := Table.init ids }
+      ([eventLine t!"endpoint", ⟨.data ⟨true, none, true⟩, false, 14⟩, blankLine] ++
+       [eventLine t!"endpoint", ⟨.data ⟨true, none, true⟩, false, 14⟩, blankLine])).halt = some .panic := by
+  simp [legRun, legStep, eventLine, blankLine, legDispatch, legEndpoint, hF]
+
+/-- a missing endpoint event is not a crash either: the latch simply stays open (the handshake then ends with the caller's
+    deadline) -/
+theorem C07_missing_endpoint_no_latch (F : Facts) (ls : List Line) (hls : ∀ l ∈ ls, l.namesEndpoint = false) (st : LegSt)
+    (hl : st.latch = false) (he : st.etype ≠ t!"endpoint") : (legRun F st ls).latch = false := by
+  induction ls generalizing st with
+  | nil => exact hl
+  | cons l ls ih =>
+    simp only [legRun, List.foldl_cons]
+    refine ih (fun x hx => hls x (by simp [hx])) _ ?_ (legStep_etype F st l (hls l (by simp)) he)
+    unfold legStep
+    split
+    · exact hl
+    · split
+      · split
+        · exact hl
+        · split
+          · unfold legDispatch
+            split
+            · rename_i h; exact absurd h he
+            · split
+              · rw [(legMessage_frame _ _).2.2.2.1]; exact hl
+              · exact hl
+          · exact hl
+      · exact hl
+      · exact hl
+      · exact hl
+
+private theorem leg_inv (F : Facts) (c : Nat) (g : List Line)
+    (hg : ∀ l ∈ g, legLineAddressed c l = false ∧ (F.latchGuarded = true ∨ l.namesEndpoint = false)) :
+    ∀ st : LegSt, st.halt = none → c ∈ st.tbl.pending → st.tbl.got c = none → legDataNotFor c st.data = true →
+      (F.latchGuarded = true ∨ st.etype ≠ t!"endpoint") →
+      (legRun F st g).halt = none ∧ c ∈ (legRun F st g).tbl.pending ∧ (legRun F st g).tbl.got c = none := by
+  induction g with
+  | nil => intro st h1 h2 h3 _ _; exact ⟨h1, h2, h3⟩
+  | cons l g ih =>
+    intro st h1 h2 h3 h4 h5
+    simp only [legRun, List.foldl_cons]
+    have hl := hg l (by simp)
+    have h5' : F.latchGuarded = true ∨ (legStep F st l).etype ≠ t!"endpoint" := by
+      rcases h5 with h5 | h5
+      · exact Or.inl h5
+      · rcases hl.2 with hg' | hn
+        · exact Or.inl hg'
+        · exact Or.inr (legStep_etype F st l hn h5)
+    apply ih (fun x hx => hg x (by simp [hx])) _ (legStep_alive F st l h1 h5) ?_ ?_ ?_ h5'
+    all_goals
+      unfold legStep
+      simp only [h1, Option.isSome_none, Bool.false_eq_true, if_false]
+    · -- pending
+      split
+      · split
+        · exact h2
+        · split
+          · unfold legDispatch
+            split
+            · rw [(legEndpoint_frame F _ _).2.2]; exact h2
+            · split
+              · rw [(legMessage_frame _ _).2.2.2.2]; exact h2
+              · exact h2
+          · exact h2
+      · exact h2
+      · exact h2
+      · exact h2
+    · -- got c
+      split
+      · split
+        · exact h3
+        · split
+          · rename_i p hd
+            unfold legDispatch
+            split
+            · rw [(legEndpoint_frame F _ _).2.2]; exact h3
+            · split
+              · rw [legMessage_other _ p c (by simpa [legDataNotFor, hd] using h4)]; exact h3
+              · exact h3
+          · exact h3
+      · exact h3
+      · exact h3
+      · exact h3
+    · -- what waits in eventData is still not for c
+      split
+      · split
+        · exact h4
+        · split
+          · unfold legDispatch
+            split
+            · rw [(legEndpoint_frame F _ _).2.1]; rfl
+            · split
+              · rw [(legMessage_frame _ _).2.2.1]; rfl
+              · rfl
+          · exact h4
+      · exact h4
+      · rename_i p hk _
+        have := hl.1
+        simp only [legLineAddressed, hk] at this
+        split
+        · simp [legDataNotFor, this]
+        · rfl
+      · exact h4
+
+private theorem leg_answer (F : Facts) (st : LegSt) (c : Nat) (hc : c < 1000000) (r : Json) (n : Nat) (h1 : st.halt = none)
+    (h2 : c ∈ st.tbl.pending) (h3 : st.tbl.got c = none) :
+    (legRun F st (legEvent (wfResult c r) n)).tbl.got c = some (.ok r) ∧ (legRun F st (legEvent (wfResult c r) n)).halt = none := by
+  have hm := idMatches_self c hc
+  have hne : (t!"message" : Text) ≠ t!"endpoint" := by decide
+  have : legRun F st (legEvent (wfResult c r) n) =
+      { st with etype := [], data := none, tbl := st.tbl.deliver (fun k => idMatches k (.int (c : Int))) (.ok r) } := by
+    simp [legRun, legEvent, legStep, h1, eventLine, dataLine, blankLine, payloadOf, legDispatch, legMessage, wfResult, hasKey, lookup,
+      idOf, outOfResponse]
+  rw [this]
+  exact ⟨deliver_sel _ _ _ c h2 hm h3, h1⟩
+
+/-- resync, legacy SSE (every region; in today's region for garbage that does not name the `endpoint` event type): complete
+    garbage lines — comments, unknown fields, half events, events of unknown types, frames for other calls, unknown and
+    wrongly typed ids, 1 MiB lines — before the well-formed answer to the pending call `c` never prevent `c` from completing
+    with that answer. -/
+theorem C07_resync_legacy_partial (F : Facts) (st : LegSt) (c : Nat) (hc : c < 1000000) (h1 : st.halt = none)
+    (h2 : c ∈ st.tbl.pending) (h3 : st.tbl.got c = none) (h4 : legDataNotFor c st.data = true)
+    (h5 : F.latchGuarded = true ∨ st.etype ≠ t!"endpoint") (g : List Line)
+    (hg : ∀ l ∈ g, legLineAddressed c l = false ∧ (F.latchGuarded = true ∨ l.namesEndpoint = false)) (r : Json) (n : Nat) :
+    (legRun F st (g ++ legEvent (wfResult c r) n)).tbl.got c = some (.ok r) := by
+  rw [legRun_append]
+  obtain ⟨i1, i2, i3⟩ := leg_inv F c g hg st h1 h2 h3 h4 h5
+  exact (leg_answer F _ c hc r n i1 i2 i3).1
+
+/-- resync, legacy SSE, full statement, good region: endpoint events in the garbage included. -/
+theorem C07_resync_legacy (F : Facts) (hF : F.latchGuarded = true) (st : LegSt) (c : Nat) (hc : c < 1000000) (h1 : st.halt = none)
+    (h2 : c ∈ st.tbl.pending) (h3 : st.tbl.got c = none) (h4 : legDataNotFor c st.data = true) (g : List Line)
+    (hg : ∀ l ∈ g, legLineAddressed c l = false) (r : Json) (n : Nat) :
+    (legRun F st (g ++ legEvent (wfResult c r) n)).tbl.got c = some (.ok r) :=
+  C07_resync_legacy_partial F st c hc h1 h2 h3 h4 (Or.inl hF) g (fun l hl => ⟨hg l hl, Or.inl hF⟩) r n
+
+/-- a later call on the same client completes whenever the reader is still alive (whatever half event it is holding) -/
+theorem C07_later_call_legacy (F : Facts) (st : LegSt) (h : st.halt = none) (n : Nat) (hn : n < 1000000) (r : Json) (size : Nat) :
+    (legRun F { st with tbl := Table.init [n] } (legEvent (wfResult n r) size)).tbl.got n = some (.ok r) :=
+  (leg_answer F { st with tbl := Table.init [n] } n hn r size h (by simp [Table.init]) rfl).1
+
+private theorem legStep_sim (F : Facts) (c : Nat) (s1 s2 : LegSt) (l : Line) (h : LegSim c s1 s2) :
+    LegSim c (legStep F s1 l) (legStep F s2 l) := by
+  obtain ⟨halt1, et1, d1, la1, ⟨pend1, got1⟩, an1⟩ := s1
+  obtain ⟨halt2, et2, d2, la2, ⟨pend2, got2⟩, an2⟩ := s2
+  obtain ⟨h1, h2, h3, h4, h5, h6⟩ := h
+  simp only at h1 h2 h3 h4 h5 h6
+  subst h1 h2 h3 h4 h5
+  simp only [legStep, legDispatch, legEndpoint, legMessage]
+  repeat' split
+  all_goals first
+    | exact ⟨rfl, rfl, rfl, rfl, rfl, h6⟩
+    | exact ⟨rfl, rfl, rfl, rfl, rfl, deliver_congr _ _ _ _ c rfl h6⟩
+
+private theorem legRun_sim (F : Facts) (c : Nat) (ls : List Line) :
+    ∀ s1 s2 : LegSt, LegSim c s1 s2 → LegSim c (legRun F s1 ls) (legRun F s2 ls) := by
+  induction ls with
+  | nil => intro s1 s2 h; exact h
+  | cons l ls ih =>
+    intro s1 s2 h
+    simp only [legRun, List.foldl_cons]
+    exact ih _ _ (legStep_sim F c s1 s2 l h)
+
+/-- isolation, legacy SSE (every region): ANY `message` event — a malformed answer to another call, an error, a request, a
+    frame for an unknown id — that is not addressed to call `c`, inserted at an event boundary anywhere in the stream, does not
+    change `c`'s outcome. -/
+theorem C07_isolation_legacy (F : Facts) (st : LegSt) (c : Nat) (p : Payload) (hp : p.nonEmpty = true)
+    (hc : legAddressed c p = false) (pre post : List Line) (size : Nat)
+    (hb : (legRun F st pre).etype = [] ∧ (legRun F st pre).data = none) :
+    (legRun F st (pre ++ legEventP p size ++ post)).tbl.got c = (legRun F st (pre ++ post)).tbl.got c := by
+  rw [List.append_assoc, legRun_append, legRun_append F st pre post, legRun_append]
+  generalize legRun F st pre = s at hb
+  have hs : LegSim c (legRun F s (legEventP p size)) s := by
+    by_cases hh : s.halt.isSome = true
+    · have : legRun F s (legEventP p size) = s := by simp [legRun, legEventP, legStep, hh]
+      rw [this]; exact ⟨rfl, rfl, rfl, rfl, rfl, rfl⟩
+    · have hne : (t!"message" : Text) ≠ t!"endpoint" := by decide
+      have : legRun F s (legEventP p size) = legMessage { s with etype := [], data := none } p := by
+        simp [legRun, legEventP, legStep, hh, eventLine, blankLine, hp, legDispatch]
+      rw [this]
+      have fr := legMessage_frame { s with etype := [], data := none } p
+      exact ⟨fr.1, by rw [fr.2.1]; exact hb.1.symm, by rw [fr.2.2.1]; exact hb.2.symm, fr.2.2.2.1, fr.2.2.2.2,
+        legMessage_other _ p c hc⟩
+  exact (legRun_sim F c post _ _ hs).2.2.2.2.2
+
+/-- unknown ids, ids of the wrong type, legacy SSE: a `message` payload that selects no registered call changes no call's
+    outcome (and cannot stop the reader). -/
+theorem C07_unknown_id_harmless_legacy (st : LegSt) (p : Payload)
+    (hp : ∀ k ∈ st.tbl.pending, legAddressed k p = false) (k : Nat) :
+    (legMessage st p).tbl.got k = st.tbl.got k ∧ (legMessage st p).halt = st.halt := by
+  refine ⟨?_, (legMessage_frame st p).1⟩
+  by_cases hk : k ∈ st.tbl.pending
+  · exact legMessage_other st p k (hp k hk)
+  · unfold legMessage
+    split
+    · split
+      · split <;> rfl
+      · split
+        · simp [Table.deliver, hk]
+        · rfl
+    · rfl
+
+example : (legRun ⟨some 65536, false, .spin⟩ { tbl := Table.init [2, 3], latch := true }
+    ([⟨.comment, false, 1048576⟩, eventLine t!"message", ⟨.data ⟨true, none, false⟩, false, 11⟩, blankLine,
+      eventLine t!"ping", dataLine (wfResult 9001 (.obj [])) 50, blankLine, dataLine (wfResult 9000 (.obj [])) 50, blankLine,
+      eventLine t!"message", dataLine (wfResult 3 (.obj [])) 50, blankLine, eventLine t!"message"] ++
+      legEvent (wfResult 2 (.obj [(t!"nextCursor", .str t!"a")])) 70)).tbl.got 2 = some (.ok (.obj [(t!"nextCursor", .str t!"a")])) :=
+  C07_resync_legacy_partial _ _ 2 (by decide) rfl (by simp [Table.init]) rfl rfl (Or.inr (by decide)) _ (by decide) _ _
+
+/-! ## 5. stdio -/
+
+private theorem stdioValue_frame (H : List Text) (st : StdioSt) (v : Json) :
+    (stdioValue H st v).halt = st.halt ∧ (stdioValue H st v).closed = st.closed ∧
+      (stdioValue H st v).tbl.pending = st.tbl.pending := by
+  unfold stdioValue
+  split
+  · exact ⟨rfl, rfl, rfl⟩
+  · exact ⟨rfl, rfl, rfl⟩
+  · split <;> exact ⟨rfl, rfl, rfl⟩
+  · split <;> exact ⟨rfl, rfl, rfl⟩
+  · split <;> exact ⟨rfl, rfl, rfl⟩
+
+private theorem stdioRun_append (F : Facts) (H : List Text) (st : StdioSt) (a b : List Frame) :
+    stdioRun F H st (a ++ b) = stdioRun F H (stdioRun F H st a) b := by
+  simp [stdioRun, List.foldl_append]
+
+private theorem msgType_obj (v : Json) (ty : MsgType) (m : Obj) (hm : msgType v = some (ty, m)) : v = .obj m := by
+  unfold msgType at hm
+  split at hm
+  · split at hm
+    · split at hm
+      · split at hm <;> try split at hm
+        all_goals simp at hm
+        all_goals simp [hm]
+      · split at hm <;> simp at hm
+        simp [hm]
+    · simp at hm
+  · simp at hm
+
+/-- a frame that is not addressed to call `c` leaves `c`'s slot alone -/
+private theorem stdioValue_other (H : List Text) (st : StdioSt) (v : Json) (c : Nat)
+    (h : stdioAddressed c (.value v) = false) : (stdioValue H st v).tbl.got c = st.tbl.got c := by
+  unfold stdioValue
+  split
+  · rfl
+  · rename_i m hm
+    have hv := msgType_obj v _ m hm
+    subst hv
+    exact deliver_not_sel _ _ _ c (by simpa [stdioAddressed] using h)
+  · rename_i m hm
+    have hv := msgType_obj v _ m hm
+    subst hv
+    split
+    · exact deliver_not_sel _ _ _ c (by simpa [stdioAddressed] using h)
+    · rfl
+  · split <;> rfl
+  · split <;> rfl
+
+private theorem stdioValue_sim (H : List Text) (c : Nat) (s1 s2 : StdioSt) (v : Json) (h : StdioSim c s1 s2) :
+    StdioSim c (stdioValue H s1 v) (stdioValue H s2 v) := by
+  obtain ⟨h1, h2, h3, h4⟩ := h
+  unfold stdioValue
+  split
+  · exact ⟨h1, h2, h3, h4⟩
+  · exact ⟨h1, h2, h3, deliver_congr _ _ _ _ c h3 h4⟩
+  · split
+    · exact ⟨h1, h2, h3, deliver_congr _ _ _ _ c h3 h4⟩
+    · exact ⟨h1, h2, h3, h4⟩
+  · split <;> exact ⟨h1, h2, h3, h4⟩
+  · split <;> exact ⟨h1, h2, h3, h4⟩
+
+private theorem stdioStep_sim (F : Facts) (H : List Text) (c : Nat) (s1 s2 : StdioSt) (f : Frame) (h : StdioSim c s1 s2) :
+    StdioSim c (stdioStep F H s1 f) (stdioStep F H s2 f) := by
+  have h' := h
+  obtain ⟨h1, h2, h3, h4⟩ := h
+  unfold stdioStep
+  rw [h1]
+  split
+  · exact h'
+  · split
+    · exact h'
+    · exact stdioValue_sim H c s1 s2 _ h'
+    · split
+      · exact ⟨rfl, h2, h3, h4⟩
+      · exact ⟨rfl, h2, h3, h4⟩
+      · exact h'
+
+private theorem stdioRun_sim (F : Facts) (H : List Text) (c : Nat) (fs : List Frame) :
+    ∀ s1 s2 : StdioSt, StdioSim c s1 s2 → StdioSim c (stdioRun F H s1 fs) (stdioRun F H s2 fs) := by
+  induction fs with
+  | nil => intro s1 s2 h; exact h
+  | cons f fs ih =>
+    intro s1 s2 h
+    simp only [stdioRun, List.foldl_cons]
+    exact ih _ _ (stdioStep_sim F H c s1 s2 f h)
+
+/-- the stdio reader never panics; in the good region (a loop that drops the offending line) it never spins and never
+    stops either: full statement, for every stream. -/
+theorem C07_total_stdio (F : Facts) (hF : F.stdioOnError = .resync) (H : List Text) (fs : List Frame) (st : StdioSt)
+    (hs : st.halt = none) : (stdioRun F H st fs).halt = none := by
+  induction fs generalizing st with
+  | nil => exact hs
+  | cons f fs ih =>
+    simp only [stdioRun, List.foldl_cons]
+    apply ih
+    unfold stdioStep
+    simp only [hs, Option.isSome_none, Bool.false_eq_true, if_false, hF]
+    split
+    · exact hs
+    · rw [(stdioValue_frame H st _).1]; exact hs
+    · exact hs
+
+/-- partial (true of today's code): streams made of JSON values and white space only — whatever the values are — never
+    stop the reader. -/
+theorem C07_total_stdio_partial (F : Facts) (H : List Text) (fs : List Frame) (hfs : ∀ f ∈ fs, f.junk = false) (st : StdioSt)
+    (hs : st.halt = none) : (stdioRun F H st fs).halt = none := by
+  induction fs generalizing st with
+  | nil => exact hs
+  | cons f fs ih =>
+    simp only [stdioRun, List.foldl_cons]
+    apply ih (fun x hx => hfs x (by simp [hx]))
+    have hj := hfs f (by simp)
+    unfold stdioStep
+    simp only [hs, Option.isSome_none, Bool.false_eq_true, if_false]
+    cases f with
+    | ws => exact hs
+    | value v => simp only; rw [(stdioValue_frame H st _).1]; exact hs
+    | garbage => simp [Frame.junk] at hj
+    | truncated => simp [Frame.junk] at hj
+
+/-- counterexample for today's region (D16): one non-JSON line, then the well-formed answer to the pending call 2 — the
+    read loop spins (until Close), the answer is never delivered. -/
+theorem C07_total_stdio_counterexample (F : Facts) (hF : F.stdioOnError = .spin) (H : List Text) (r : Json) :
+    (stdioRun F H { tbl := Table.init [2] } [.garbage, .value (wfResult 2 r)]).halt = some .spin ∧
+    (stdioRun F H { tbl := Table.init [2] } [.garbage, .value (wfResult 2 r)]).spinning = true ∧
+    (stdioRun F H { tbl := Table.init [2] } [.garbage, .value (wfResult 2 r)]).tbl.got 2 = none := by
+  simp [stdioRun, stdioStep, hF, StdioSt.spinning, Table.init]
+
+/-- a loop that merely leaves on the first decode error does not spin but is just as deaf -/
+theorem C07_resync_stdio_stop_counterexample (F : Facts) (hF : F.stdioOnError = .stop) (H : List Text) (r : Json) :
+    (stdioRun F H { tbl := Table.init [2] } [.garbage, .value (wfResult 2 r)]).halt = some .dead ∧
+    (stdioRun F H { tbl := Table.init [2] } [.garbage, .value (wfResult 2 r)]).tbl.got 2 = none := by
+  simp [stdioRun, stdioStep, hF, Table.init]
+
+/-- the regions of the stdio loop this file accounts for: today's (`spin`, counterexample above) and the good one -/
+theorem C07_stdio_fact : Mcp.Gen.rdFacts.stdioOnError = .spin ∨ Mcp.Gen.rdFacts.stdioOnError = .resync := by decide
+
+private theorem stdio_inv (F : Facts) (H : List Text) (c : Nat) (g : List Frame)
+    (hg : ∀ f ∈ g, stdioAddressed c f = false) (hj : F.stdioOnError = .resync ∨ ∀ f ∈ g, f.junk = false) :
+    ∀ st : StdioSt, st.halt = none → c ∈ st.tbl.pending → st.tbl.got c = none →
+      (stdioRun F H st g).halt = none ∧ c ∈ (stdioRun F H st g).tbl.pending ∧ (stdioRun F H st g).tbl.got c = none := by
+  induction g with
+  | nil => intro st h1 h2 h3; exact ⟨h1, h2, h3⟩
+  | cons f g ih =>
+    intro st h1 h2 h3
+    simp only [stdioRun, List.foldl_cons]
+    have hg' : ∀ x ∈ g, stdioAddressed c x = false := fun x hx => hg x (by simp [hx])
+    have hj' : F.stdioOnError = .resync ∨ ∀ x ∈ g, x.junk = false := by
+      rcases hj with hj | hj
+      · exact Or.inl hj
+      · exact Or.inr (fun x hx => hj x (by simp [hx]))
+    apply ih hg' hj'
+    · -- halt
+      cases f with
+      | ws => simp [stdioStep, h1]
+      | value v => simp only [stdioStep, h1, Option.isSome_none, Bool.false_eq_true, if_false]; rw [(stdioValue_frame H st _).1]; exact h1
+      | garbage =>
+        rcases hj with hj | hj
+        · simp [stdioStep, h1, hj]
+        · have := hj .garbage (by simp); simp [Frame.junk] at this
+      | truncated =>
+        rcases hj with hj | hj
+        · simp [stdioStep, h1, hj]
+        · have := hj .truncated (by simp); simp [Frame.junk] at this
+    · cases f with
+      | value v => simp only [stdioStep, h1, Option.isSome_none, Bool.false_eq_true, if_false]; rw [(stdioValue_frame H st _).2.2]; exact h2
+      | ws => simp [stdioStep, h1, h2]
+      | garbage => simp only [stdioStep, h1, Option.isSome_none, Bool.false_eq_true, if_false]; split <;> exact h2
+      | truncated => simp only [stdioStep, h1, Option.isSome_none, Bool.false_eq_true, if_false]; split <;> exact h2
+    · cases f with
+      | value v =>
+        simp only [stdioStep, h1, Option.isSome_none, Bool.false_eq_true, if_false]
+        rw [stdioValue_other H st v c (hg _ (by simp))]; exact h3
+      | ws => simp [stdioStep, h1, h3]
+      | garbage => simp only [stdioStep, h1, Option.isSome_none, Bool.false_eq_true, if_false]; split <;> exact h3
+      | truncated => simp only [stdioStep, h1, Option.isSome_none, Bool.false_eq_true, if_false]; split <;> exact h3
+
+private theorem keyIs_self (c : Nat) : keyIs c (.int (c : Int)) = true := by simp [keyIs, idInt64]
+
+private theorem stdio_answer (F : Facts) (H : List Text) (st : StdioSt) (c : Nat) (o : Obj) (h1 : st.halt = none)
+    (h2 : c ∈ st.tbl.pending) (h3 : st.tbl.got c = none) :
+    (stdioRun F H st [.value (wfResult c (.obj o))]).tbl.got c = some (.ok (.obj o)) := by
+  have hk := keyIs_self c
+  simp only [stdioRun, List.foldl_cons, List.foldl_nil, stdioStep, h1, Option.isSome_none, Bool.false_eq_true, if_false]
+  have : stdioValue H st (wfResult c (.obj o)) =
+      { st with tbl := st.tbl.deliver (fun k => keyIs k (.int (c : Int))) (.ok (.obj o)) } := by
+    simp [stdioValue, wfResult, msgType, lookupStr?, lookup, hasKey, idOf]
+  rw [this]
+  exact deliver_sel _ _ _ c h2 hk h3
+
+/-- resync, stdio, partial (true of today's code): any JSON values and white space — frames of the wrong kind, unknown ids,
+    ids of the wrong type, scalars, 1 MiB values, answers for other calls — before the well-formed answer to the pending
+    call `c` never prevent `c` from completing with that answer. -/
+theorem C07_resync_stdio_partial (F : Facts) (H : List Text) (st : StdioSt) (c : Nat) (h1 : st.halt = none)
+    (h2 : c ∈ st.tbl.pending) (h3 : st.tbl.got c = none) (g : List Frame) (hj : ∀ f ∈ g, f.junk = false)
+    (hg : ∀ f ∈ g, stdioAddressed c f = false) (o : Obj) :
+    (stdioRun F H st (g ++ [.value (wfResult c (.obj o))])).tbl.got c = some (.ok (.obj o)) := by
+  rw [stdioRun_append]
+  obtain ⟨i1, i2, i3⟩ := stdio_inv F H c g hg (Or.inr hj) st h1 h2 h3
+  exact stdio_answer F H _ c o i1 i2 i3
+
+/-- resync, stdio, full statement, good region: non-JSON lines and truncated output included. -/
+theorem C07_resync_stdio (F : Facts) (hF : F.stdioOnError = .resync) (H : List Text) (st : StdioSt) (c : Nat)
+    (h1 : st.halt = none) (h2 : c ∈ st.tbl.pending) (h3 : st.tbl.got c = none) (g : List Frame)
+    (hg : ∀ f ∈ g, stdioAddressed c f = false) (o : Obj) :
+    (stdioRun F H st (g ++ [.value (wfResult c (.obj o))])).tbl.got c = some (.ok (.obj o)) := by
+  rw [stdioRun_append]
+  obtain ⟨i1, i2, i3⟩ := stdio_inv F H c g hg (Or.inl hF) st h1 h2 h3
+  exact stdio_answer F H _ c o i1 i2 i3
+
+/-- isolation, stdio (every region): ANY JSON value that is not addressed to call `c` — a malformed answer to another call,
+    an error with the wrong shape, a frame of the wrong kind — placed anywhere in the stream does not change `c`'s outcome. -/
+theorem C07_isolation_stdio (F : Facts) (H : List Text) (st : StdioSt) (c : Nat) (v : Json)
+    (hv : stdioAddressed c (.value v) = false) (pre post : List Frame) :
+    (stdioRun F H st (pre ++ .value v :: post)).tbl.got c = (stdioRun F H st (pre ++ post)).tbl.got c := by
+  rw [stdioRun_append, stdioRun_append]
+  generalize stdioRun F H st pre = s
+  simp only [stdioRun, List.foldl_cons]
+  have hs : StdioSim c (stdioStep F H s (.value v)) s := by
+    unfold stdioStep
+    split
+    · exact ⟨rfl, rfl, rfl, rfl⟩
+    · have := stdioValue_frame H s v
+      exact ⟨this.1, this.2.1, this.2.2, stdioValue_other H s v c hv⟩
+  exact (stdioRun_sim F H c post _ _ hs).2.2.2
+
+/-- unknown ids, ids of the wrong type: a JSON value whose id selects no registered call changes no call's outcome. -/
+theorem C07_unknown_id_harmless_stdio (F : Facts) (H : List Text) (st : StdioSt) (v : Json)
+    (hv : ∀ k ∈ st.tbl.pending, stdioAddressed k (.value v) = false) (k : Nat) :
+    (stdioStep F H st (.value v)).tbl.got k = st.tbl.got k := by
+  unfold stdioStep
+  split
+  · rfl
+  · by_cases hk : k ∈ st.tbl.pending
+    · exact stdioValue_other H st v k (hv k hk)
+    · simp only
+      unfold stdioValue
+      split
+      · rfl
+      · simp [Table.deliver, hk]
+      · split
+        · simp [Table.deliver, hk]
+        · rfl
+      · split <;> rfl
+      · split <;> rfl
+
+/-- ids that are strings, null, booleans, arrays or objects select nobody; a fractional number is truncated (2.5 selects 2) -/
+example : keyIs 2 (.str t!"2") = false ∧ keyIs 2 .null = false ∧ keyIs 2 (.bool true) = false ∧ keyIs 2 (.arr [.int 2]) = false ∧
+    keyIs 2 (.obj []) = false ∧ keyIs 2 (.dec 25 1) = true ∧ keyIs 2 (.int (-2)) = false := by decide
+
+/-- a later call on the same client completes whenever the reader is still alive -/
+theorem C07_later_call_stdio (F : Facts) (H : List Text) (st : StdioSt) (h : st.halt = none) (n : Nat) (o : Obj) :
+    (stdioRun F H { st with tbl := Table.init [n] } [.value (wfResult n (.obj o))]).tbl.got n = some (.ok (.obj o)) :=
+  stdio_answer F H _ n o h (by simp [Table.init]) rfl
+
+/-- Close ends even a spinning read loop (the loop condition reads `closed`) -/
+theorem C07_close_ok_stdio (st : StdioSt) : (stdioClose st).spinning = false := by
+  simp [stdioClose, StdioSt.spinning]
+
+example : (stdioRun ⟨some 65536, false, .spin⟩ [] { tbl := Table.init [2, 3] }
+    ([.value (.int 42), .ws, .value (wfResult 9000 (.obj [])), .value (.obj [(t!"jsonrpc", .str t!"2.0"), (t!"id", .str t!"2"), (t!"result", .null)]),
+      .value (wfResult 3 (.obj []))] ++ [.value (wfResult 2 (.obj [(t!"nextCursor", .str t!"a")]))])).tbl.got 2
+      = some (.ok (.obj [(t!"nextCursor", .str t!"a")])) :=
+  C07_resync_stdio_partial _ [] _ 2 rfl (by simp [Table.init]) rfl _ (by decide) (by decide) _
+
+/-! ## the tree as it is, and the good region -/
+
+/-- In the good region of the family (no line limit, guarded latch, resynchronising stdio loop) no reader ever stops:
+    `C07_total` in full, for every stream of every reader.  Today `Mcp.Gen.rdFacts.good` is false (findings D15, D16, D17);
+    once the three repairs are in, the hypothesis is discharged by `decide`. -/
+theorem C07_total (F : Facts) (hF : F.good = true) (H : List Text) :
+    (∀ ls, (getRun F H {} ls).halt = none) ∧
+    (∀ ids ls, (legRun F { tbl := Table.init ids } ls).halt = none) ∧
+    (∀ ids fs, (stdioRun F H { tbl := Table.init ids } fs).halt = none) := by
+  simp only [Facts.good, Bool.and_eq_true, Option.isNone_iff_eq_none, beq_iff_eq] at hF
+  exact ⟨fun ls => C07_alive_get F hF.1.1 H ls {} rfl,
+    fun ids ls => C07_total_legacy F hF.1.2 ls _ rfl,
+    fun ids fs => C07_total_stdio F hF.2 H fs _ rfl⟩
+
+/-- the regenerated facts are in a region this file accounts for -/
+theorem C07_facts_accounted :
+    (Mcp.Gen.rdFacts.good = true) ∨
+    ((match Mcp.Gen.rdFacts.getLimit with | none => true | some lim => decide (65536 ≤ lim)) = true ∧
+     (Mcp.Gen.rdFacts.stdioOnError = .spin ∨ Mcp.Gen.rdFacts.stdioOnError = .resync)) := by decide
+
 end Mcp.Props.C07
